@@ -42,6 +42,7 @@ type Env struct {
 	file       *SpecFile
 	calleeMode bool
 	capt       map[string]capturedVar // captured variables of a closure contract (caller side)
+	twoHeaps   bool                   // lemma context: old(e) reads a second, independent heap
 }
 
 func (g *FnGen) newEnv(cur, old *State) *Env {
@@ -60,8 +61,12 @@ func (e *Env) with(name string, v TVal) *Env {
 
 func (e *Env) heap(sort string) string {
 	if e.specMode {
-		e.heapParams[sort] = true
 		e.c.reg.heapSorts[sort] = true
+		if e.oldMode {
+			e.heapParams["old:"+sort] = true
+			return "hpo_" + heapName(sort)
+		}
+		e.heapParams[sort] = true
 		return "hp_" + heapName(sort)
 	}
 	return e.g.heap(e.hst, sort)
@@ -69,7 +74,12 @@ func (e *Env) heap(sort string) string {
 
 func (e *Env) inOld() *Env {
 	if e.specMode {
-		return e
+		if !e.twoHeaps {
+			return e
+		}
+		n := *e
+		n.oldMode = true
+		return &n
 	}
 	n := *e
 	n.hst = e.old
@@ -853,6 +863,10 @@ func containsToken(s, tok string) bool {
 	}
 }
 
+// spec functions emitted as non-recursive define-fun are macro-expanded by the
+// solvers and therefore cannot serve as patterns
+var macroSpecs = map[string]bool{}
+
 var nonPatternHeads = map[string]bool{"+": true, "-": true, "*": true, "<": true, "<=": true, ">": true, ">=": true, "=": true,
 	"and": true, "or": true, "not": true, "=>": true, "ite": true, "select": true, "store": true, "tdiv": true, "tmod": true,
 	"div": true, "mod": true, "imin": true, "imax": true, "forall": true, "exists": true, "let": true, "!": true, "distinct": true}
@@ -869,7 +883,7 @@ func appPattern(body, b string, bound []string) string {
 			j++
 		}
 		head := body[i+1 : j]
-		if head == "" || nonPatternHeads[head] || strings.HasPrefix(head, "(") || strings.HasPrefix(head, "_") {
+		if head == "" || nonPatternHeads[head] || macroSpecs[head] || strings.HasPrefix(head, "(") || strings.HasPrefix(head, "_") {
 			continue
 		}
 		// extract the balanced term and its direct arguments
